@@ -1,11 +1,12 @@
 """C04 — join: waits for all children, each output at its own position, zero inputs resolve at once."""
+from ..facts import base
 from .. import families
 from . import joinlike, flow, c03, c01
 
 PROPERTY = "C04"
 LEVEL = "other"
-CONFIGS_QUICK = ["std", "alloc"]
-CONFIGS_THOROUGH = ["std", "alloc", "core"]
+CONFIGS_QUICK = ["std", "alloc", "std-rel"]
+CONFIGS_THOROUGH = ["std", "alloc", "core", "std-rel", "alloc-rel", "core-rel"]
 EXPLANATION = (
     "Data-flow and counter-discipline rules on the MIR of every join poll body (tuple arities 1-12, array, Vec): (POS) on a "
     "child's Ready edge its payload - and nothing else - is written to the output slot of the same position (tuple field K / "
@@ -60,7 +61,7 @@ def run(ctx):
         joinlike.rule_zero_tuple0(ctx, M, "join", "C04.ZERO", "Ready")
         n = joinlike.rule_ext(ctx, M, "future::futures_ext::FutureExt", "join", "join", "C04.EXT")
         ctx.require(n >= 1, "FutureExt::join")
-        na = 1 if cfg == "core" else 2
+        na = 1 if base(cfg) == "core" else 2
         ctx.floor("C04.POS", cfg, 78 + na + 12 + na)
         ctx.floor("C04.CNT", cfg, 2 * (78 + na) + 3 * (12 + na))
         ctx.floor("C04.ZERO", cfg, na + 1)
